@@ -59,6 +59,11 @@ SDT_TYPE = {"kind": "section", "name": "sdt", "keytype": None,
                 {"kind": "multikey", "name": "stamps", "datatype": "epoch",
                  "required": False, "handler": None, "attribute": None,
                  "default": None, "defaults": ["m1", "m2"]},
+                {"kind": "multikey", "name": "lists",
+                 "datatype": "string-list", "required": False,
+                 "handler": None, "attribute": None, "default": None,
+                 "defaults": ["a b  c", "long " + "w" * 70 + " tail x y z "
+                              + "v" * 30]},
                 {"kind": "multikey", "name": "items", "datatype": "string",
                  "required": False, "handler": None, "attribute": None,
                  "default": None, "defaults": ["d1", "d2"]},
@@ -181,6 +186,21 @@ def make_step(rng, w, kind):
         tree["items"].insert(0, ["raw", "%import " + name])
         if rng.random() < 0.3:
             tree["items"].insert(1, ["raw", "%import " + name])
+        others = [c for c in w.components if c[0] != name]
+        if others and rng.random() < 0.4:
+            # a second component: imported as well (before or after the
+            # first), or - not imported - one of its types used all the
+            # same, which is refused whatever earlier loads imported
+            oname, otypes = rng.choice(others)
+            r = rng.random()
+            if r < 0.6:
+                tree["items"].insert(rng.choice([0, 1]),
+                                     ["raw", "%import " + oname])
+            for t in otypes:
+                if t.get("implements"):
+                    tree["items"].append(["s", texts.mknode(
+                        t["name"], rng.choice([None, "oth"]), "empty")])
+                    break
         for ti, t in enumerate(ctypes):
             if t.get("implements") and rng.random() < 0.8:
                 n = texts.mknode(t["name"], rng.choice([None, "imp%d" % ti]))
